@@ -97,6 +97,9 @@ Ret(r) ==
        \* a non-empty buffer) - exactly those were handed to the device, see DevTxW
        [] call.op = "write" -> /\ r.n = call.done /\ (call.len > 0 => r.n >= 1)
                                /\ UNCHANGED <<chunk, consumed, irq>>
+       \* core::fmt::Write (write_str, write_char, write_fmt): by the time it returns, the chains
+       \* handed to the device carried exactly the UTF-8 text, see DevTxF
+       [] call.op = "fmt" -> r.ok /\ call.done = Len(call.bytes) /\ UNCHANGED <<chunk, consumed, irq>>
        [] OTHER -> FALSE
   /\ call' = None
   /\ UNCHANGED <<written, posted, filled, picked>>
@@ -116,6 +119,15 @@ DevTxW(first, len, affine, rl, wl) ==
   /\ first = B(call.start + call.done) /\ affine
   /\ rl = <<len>> /\ wl = <<>>
   /\ call' = [call EXCEPT !.done = @ + len]
+  /\ UNCHANGED <<written, consumed, chunk, posted, filled, irq, picked>>
+
+\* fmt::Write: one or more chains, each device-readable only, carrying the next bytes of the text
+DevTxF(bytes, rl, wl) ==
+  /\ call.op = "fmt"
+  /\ Len(bytes) >= 1 /\ call.done + Len(bytes) <= Len(call.bytes)
+  /\ bytes = SubSeq(call.bytes, call.done + 1, call.done + Len(bytes))
+  /\ rl = <<Len(bytes)>> /\ wl = <<>>
+  /\ call' = [call EXCEPT !.done = @ + Len(bytes)]
   /\ UNCHANGED <<written, consumed, chunk, posted, filled, irq, picked>>
 
 \* invariants: nothing lost, duplicated or reordered
